@@ -7,6 +7,7 @@ Specification: Spec/Listing.lean (`spliceSpec`, `layoutPieces`) evaluated by the
 the real before/after dumps.  Model: Model/IR/*.lean, Model/IR/Batch.lean.
 Theorems: Props/C01.lean.
 """
+import emodify
 import listing_engine as LE
 
 GEN = []
@@ -177,8 +178,58 @@ def check_overlap(ctx, g):
         ctx.violation("C01:overlap:bytes", ".data holds %r, the listing gives %r (blocks %s, request %s)" % (got, want, g["blocks"], e), g)
 
 
+def check_fixed_width(ctx, g):
+    """ISAs whose nop is four bytes (ARM64, MIPS32): the section bytes after a rewrite are the listing's bytes plus
+    exactly the padding the alignment entry demands, made of whole nops (C01: 'the only other bytes that may appear
+    are nop/zero padding demanded by alignment metadata ... for every supported ISA')"""
+    import logging
+
+    import gtirb
+    import gtirb_functions
+    from gtirb_test_helpers import add_code_block, add_text_section, create_test_module
+
+    import gtirb_rewriting._auxdata as A
+    from gtirb_rewriting import RewritingContext
+
+    logging.disable(logging.CRITICAL)
+    ctx.case(g, sample=g if len(ctx.samples) < 5 else None, nontrivial=True)
+    ctx.count("fixed-width:" + g["isa"])
+    isa = getattr(gtirb.Module.ISA, g["isa"])
+    ir, m = create_test_module(gtirb.Module.FileFormat.ELF, isa)
+    m.byte_order = gtirb.Module.ByteOrder.Big if g["isa"] == "MIPS32" else gtirb.Module.ByteOrder.Little
+    sect, bi = add_text_section(m, address=0x1000)
+    nop = b"\x1f\x20\x03\xd5" if g["isa"] == "ARM64" else b"\x00\x00\x00\x00"
+    # distinguishable ordinary instructions: add x<i>, x<i>, #1 / addiu $t<i>, $t<i>, 1
+    def insn(i):
+        return ((0x91000400 | i | (i << 5)).to_bytes(4, "little") if g["isa"] == "ARM64"
+                else (0x25080001 | (i << 21) | (i << 16)).to_bytes(4, "big"))
+    ret = b"\xc0\x03\x5f\xd6" if g["isa"] == "ARM64" else b"\x03\xe0\x00\x08" + b"\x00\x00\x00\x00"
+    c1 = b"".join(insn(i) for i in range(g["n1"]))
+    c2 = b"".join(insn(8 + i) for i in range(g["n2"])) + ret
+    b1 = add_code_block(bi, c1)
+    b2 = add_code_block(bi, c2)
+    ir.cfg.add(gtirb.Edge(b1, b2, gtirb.Edge.Label(gtirb.Edge.Type.Fallthrough)))
+    A.alignment.get_or_insert(m)[b2] = g["align"]
+    rc = RewritingContext(m, gtirb_functions.Function.build_functions(m))
+    rc.insert_at(b1, 4 * g["at"], emodify.make_patch("nop\n" * g["count"]))
+    try:
+        rc.apply()
+    except Exception as e:  # noqa: BLE001
+        ctx.violation("C01:fixed-width:raises", "%s: apply() raised %s: %s" % (g["isa"], type(e).__name__, str(e)[:100]), g)
+        return
+    got = b"".join(bytes(i.contents) for i in sorted(sect.byte_intervals, key=lambda i: i.address or 0))
+    edited = c1[:4 * g["at"]] + nop * g["count"] + c1[4 * g["at"]:]
+    want = edited + nop * ((-len(edited) % g["align"]) // 4) + c2
+    if got != want:
+        ctx.violation("C01:fixed-width:bytes", "%s: section bytes %s, the listing with the padding demanded by alignment %d is %s"
+                      % (g["isa"], got.hex(), g["align"], want.hex()), g)
+
+
 def run(ctx):
     LE.run(ctx, "C01", 1500, 40000)
+    for k in range(ctx.budget(24, 300)):
+        check_fixed_width(ctx, {"fixed_width": True, "isa": ["ARM64", "MIPS32"][k % 2], "n1": 2 + k % 3, "n2": 1 + (k // 2) % 2,
+                                "align": [8, 16, 32][k % 3], "at": k % 3, "count": 1 + (k // 3) % 3})
     for _ in range(ctx.budget(100, 2500)):
         check_overlap(ctx, gen_overlap(ctx.rng))
     for _ in range(ctx.budget(120, 3000)):
@@ -191,5 +242,7 @@ def replay(ctx, payload):
         check_overlap(ctx, case)
     elif isinstance(case, dict) and case.get("lead_case"):
         check_lead(ctx, case)
+    elif isinstance(case, dict) and case.get("fixed_width"):
+        check_fixed_width(ctx, case)
     else:
         LE.replay(ctx, "C01", payload)
